@@ -71,6 +71,20 @@ pub fn cross(toks: &[&str]) -> String {
         for (i,img) in imgs.iter_mut().enumerate() {
             if let Err(e) = img.write_block(to_block(a),&d) { return format!("FAIL write {:?} refused on {}: {}",a,labels[i],e); }
         }
+        // the command line saves and loads the image around every operation: now and then, and after the last operation, every
+        // container is serialised and parsed again before the volumes are compared
+        if _op+1==nops || rng.below(12)==0 {
+            for i in 0..imgs.len() {
+                let bytes = imgs[i].to_bytes();
+                let ext = match labels[i].split(':').next().unwrap() { "woz1" | "woz2" => "woz", x if x.starts_with("2mg") => "2mg", x => x };
+                // raw sector dumps do not record the disk kind; the other formats must come back as the same kind of image
+                if matches!(ext,"do"|"po"|"d13"|"img"|"nib") { continue; }
+                match a2kit::create_img_from_bytestream(&bytes,Some(ext)) {
+                    Ok(img2) => { if img2.what_am_i()!=imgs[i].what_am_i() { return format!("FAIL {} reloaded as {}",labels[i],img2.what_am_i()); } imgs[i] = img2; },
+                    Err(e) => return format!("FAIL {} cannot be parsed back after serialising: {}",labels[i],e)
+                }
+            }
+        }
     }
     // every block
     for (a,_unit) in valid {
